@@ -35,6 +35,7 @@ SCOPE_WORDS = re.compile(
 
 SCOPE_FNS = [
     "subscope", "loop_scope", "get_combined_scope", "combine_subscopes", "suppressing_subscope", "set", "get_local",
+    "_add_single_constraint",
 ]
 VISITOR_FNS = [
     "visit_If", "visit_While", "visit_For", "_handle_loop_else", "visit_try_except", "visit_Try",
